@@ -26,11 +26,13 @@ class StubMac(object):
         self.digest_size = digest_size
         self.block_size = block_size
         self.buf = list(buf or [])
-        self.log = None
+        self.log = None      # list collecting every input that was digested
+        self.guard = None    # ForgeryGuard: unforgeability assumption
 
     def copy(self):
         m = StubMac(self.name, self.digest_size, self.block_size, self.buf)
         m.log = self.log
+        m.guard = self.guard
         return m
 
     def update(self, d):
@@ -39,10 +41,40 @@ class StubMac(object):
     def digest(self):
         if self.log is not None:
             self.log.append(list(self.buf))
-        return apply_uf("H" + self.name, self.buf, self.digest_size)
+        t = apply_uf("H" + self.name, self.buf, self.digest_size)
+        if self.guard is not None:
+            self.guard.on_digest(list(self.buf), t)
+        return t
 
     def hexdigest(self):
         raise Unsupported("hexdigest on StubMac")
+
+
+class ForgeryGuard(object):
+    """Unforgeability of the MAC as an assumption on the path.
+
+    honest: list of inputs the honest peer MACed under this key.
+    pool:   byte strings under the attacker's control (received wire bytes
+            and everything the reader derives from them by decryption).
+    For every reader-side evaluation H(x): either x is one of the honest
+    inputs, or H(x) occurs nowhere in the pool (an attacker cannot exhibit a
+    valid tag for a message the key holder never authenticated)."""
+
+    def __init__(self, honest, pool):
+        self.honest = honest
+        self.pool = pool
+        self.evaluations = 0
+
+    def on_digest(self, x, t):
+        self.evaluations += 1
+        in_w = OR([seq_eq(x, w) for w in self.honest if len(w) == len(x)])
+        ds = len(t)
+        diffs = []
+        for buf in self.pool:
+            buf = list(buf)
+            for j in range(0, len(buf) - ds + 1):
+                diffs.append(NOT(seq_eq(buf[j:j + ds], t)))
+        assume(OR(in_w, AND(diffs)))
 
 
 def H(name, data, n):
@@ -60,18 +92,24 @@ class StubBlockCipher(object):
     isAEAD = False
     implementation = "model"
 
-    def __init__(self, keyname, block_size=16, name="aes128"):
+    def __init__(self, keyname, block_size=16, name="aes128",
+                 stateless=False, pool=None):
         self.kn = keyname
         self.block_size = block_size
         self.name = name
         self.ecalls = 0
         self.dcalls = 0
+        # stateless: one bijection for all calls (the weakest model of CBC
+        # chaining: reordered / dropped records still decrypt), used when an
+        # adversary feeds the reader
+        self.stateless = stateless
+        self.pool = pool
 
     def encrypt(self, data):
         n = len(data)
         if n % self.block_size:
             raise AssertionError("model: CBC encrypt of partial block")
-        tag = "%s_%d" % (self.kn, self.ecalls)
+        tag = "%s_%d" % (self.kn, 0 if self.stateless else self.ecalls)
         self.ecalls += 1
         y = apply_uf("E" + tag, data, n)
         if not is_concrete_mode() and n:
@@ -82,11 +120,13 @@ class StubBlockCipher(object):
         n = len(data)
         if n % self.block_size:
             raise AssertionError("model: CBC decrypt of partial block")
-        tag = "%s_%d" % (self.kn, self.dcalls)
+        tag = "%s_%d" % (self.kn, 0 if self.stateless else self.dcalls)
         self.dcalls += 1
         x = apply_uf("D" + tag, data, n)
         if not is_concrete_mode() and n:
             assume(_fn("E" + tag, n, n)(cat(x)) == cat(data))
+        if self.pool is not None:
+            self.pool.append(list(x))
         return x
 
 
@@ -98,14 +138,16 @@ class StubStreamCipher(object):
     implementation = "model"
     name = "rc4"
 
-    def __init__(self, keyname):
+    def __init__(self, keyname, stateless=False, pool=None):
         self.kn = keyname
         self.ecalls = 0
         self.dcalls = 0
+        self.stateless = stateless
+        self.pool = pool
 
     def encrypt(self, data):
         n = len(data)
-        tag = "%s_%d" % (self.kn, self.ecalls)
+        tag = "%s_%d" % (self.kn, 0 if self.stateless else self.ecalls)
         self.ecalls += 1
         if n == 0:
             return _buf()
@@ -116,13 +158,15 @@ class StubStreamCipher(object):
 
     def decrypt(self, data):
         n = len(data)
-        tag = "%s_%d" % (self.kn, self.dcalls)
+        tag = "%s_%d" % (self.kn, 0 if self.stateless else self.dcalls)
         self.dcalls += 1
         if n == 0:
             return _buf()
         x = apply_uf("T" + tag, data, n)
         if not is_concrete_mode():
             assume(_fn("S" + tag, n, n)(cat(x)) == cat(data))
+        if self.pool is not None:
+            self.pool.append(list(x))
         return x
 
 
@@ -145,6 +189,9 @@ class StubAEAD(object):
         self.key = None
         self.seal_log = []
         self.open_log = []
+        # honest: list of (nonce, ciphertext, aad) sealed by the key holder;
+        # when set, a tag can only verify for one of those (unforgeability)
+        self.honest = None
 
     def _tag(self, nonce, ct, aad):
         ln = [len(nonce) & 0xff, (len(aad) >> 8) & 0xff, len(aad) & 0xff]
@@ -155,7 +202,6 @@ class StubAEAD(object):
         if len(nonce) != self.nonceLength:
             raise ValueError("Bad nonce length")
         n = len(plaintext)
-        self.seal_log.append((list(nonce), list(plaintext), list(data)))
         if n:
             ct = apply_uf("AE" + self.kn, list(nonce) + list(plaintext), n)
             if not is_concrete_mode():
@@ -163,6 +209,8 @@ class StubAEAD(object):
                     cat(list(nonce) + list(ct))) == cat(plaintext))
         else:
             ct = _buf()
+        self.seal_log.append((list(nonce), list(ct), list(data),
+                              list(plaintext)))
         return ct + self._tag(nonce, ct, data)
 
     def open(self, nonce, ciphertext, data):
@@ -175,6 +223,13 @@ class StubAEAD(object):
         tag = ciphertext[n:]
         self.open_log.append((list(nonce), list(ct), list(data)))
         good = seq_eq(tag, self._tag(nonce, ct, data))
+        if self.honest is not None:
+            in_w = OR([AND(seq_eq(nonce, w[0]), seq_eq(ct, w[1]),
+                           seq_eq(data, w[2]))
+                       for w in self.honest
+                       if len(w[0]) == len(nonce) and len(w[1]) == len(ct)
+                       and len(w[2]) == len(data)])
+            assume(OR(in_w, NOT(good)))
         if not good:        # forks in symbolic mode
             return None
         if n:
